@@ -1,6 +1,6 @@
 package main
 
-// T1 regular-language obligations (DESIGN 2.6): pattern literals of the current
+// T1 regular-language obligations (DESIGN 2.4): pattern literals of the current
 // source are compiled to SMT-LIB RegLan terms; emptiness / inclusion questions are
 // decided by cvc5 and z3 5.1 (z3 4.8.12 is never used here).
 
